@@ -350,15 +350,59 @@ def _val(rng, scale):
     return rng.uniform(-1, 1) * scale * 10
 
 
-def point(rng, defn, scale=None):
-    """Named input point: dt, every state and control."""
+EXP_ARG_LIMIT = 300.0  # exp(300) ~ 1e130: a product of two such factors still fits a double
+
+
+def max_exp_argument(defn, env):
+    """Largest a**2 over all exp(-a**2) nodes of the definition at this point
+    (env must contain calibration values too)."""
+    worst = 0.0
+
+    def walk(a):
+        nonlocal worst
+        if a[0] in ("c", "f", "s"):
+            return
+        if a[0] == "gauss":
+            try:
+                v = float(E.ev(a[1], env)[0])
+                worst = max(worst, v * v)
+            except (OverflowError, ValueError):
+                worst = float("inf")
+        for k in a[1:]:
+            if isinstance(k, list):
+                walk(k)
+
+    for body in defn["model"].values():
+        walk(body)
+    for rd in defn["sensors"].values():
+        for body in rd.values():
+            walk(body)
+    return worst
+
+
+def point(rng, defn, scale=None, avoid_exp_overflow=True):
+    """Named input point: dt, every state and control.
+
+    By default points where an exp(-a**2) term has a**2 > EXP_ARG_LIMIT are
+    re-drawn: FormaK's simplify-after-CSE rewrites such terms onto a common
+    factor exp(a**2), which overflows there (known finding cse-simplify:
+    exp-overflow, owned by C01/C02/C08, which probe that region on purpose)."""
     if scale is None:
         scale = rng.choice([1e-2, 0.3, 1.0, 1.0, 1.0, 3.0, 10.0, 1e2])
-    env = {defn["dt"]: rng.choice([1e-3, 0.01, 0.05, 0.1, 0.25, 0.5, 1.0, rng.uniform(1e-3, 1.0)])}
-    for s in defn["state"]:
-        env[s] = _val(rng, scale)
-    for c in defn["control"]:
-        env[c] = _val(rng, scale)
+    for attempt in range(40):
+        env = {defn["dt"]: rng.choice([1e-3, 0.01, 0.05, 0.1, 0.25, 0.5, 1.0, rng.uniform(1e-3, 1.0)])}
+        for s in defn["state"]:
+            env[s] = _val(rng, scale)
+        for c in defn["control"]:
+            env[c] = _val(rng, scale)
+        if not avoid_exp_overflow:
+            return env
+        full = dict(env)
+        full.update(defn.get("calibration_map", {}))
+        if max_exp_argument(defn, full) <= EXP_ARG_LIMIT:
+            return env
+        if attempt % 5 == 4:
+            scale = scale / 3.0
     return env
 
 
